@@ -211,7 +211,7 @@ def parent_relative(ctx, stream, n):
     rng = ctx.rng("parent-relative")
     cases = []
     while len(cases) < n:
-        tree = sc.gen_tree(rng, comps=["app", "apps", "core", "plugins", "db", "app_x", "m"], max_depth=5, init_prob=0.5, extra_files=False)
+        tree = sc.gen_tree(rng, comps=["app", "apps", "core", "plugins", "db", "app_x", "m", "proj", "proj"], max_depth=5, init_prob=0.5, extra_files=False)
         dirs = sorted(p for p, v in tree.items() if v is None and p != "proj")
         if not dirs:
             continue
@@ -220,6 +220,10 @@ def parent_relative(ctx, stream, n):
         parent = ".".join(pre.split(".")[:-1])
         inside = sorted(sc.module_of(p) for p, v in tree.items() if (v is None or p.endswith(".py")) and (p == mp or p.startswith(mp + "/")))
         files = [p for p in tree if p.endswith(".py") and p.startswith(mp + "/")]
+        # with repeated directory names (proj/proj/...) a fully qualified name can ALSO be read as relative to module_path's
+        # parent; such spellings are inherently ambiguous (the prefixed candidate wins) and are not generated
+        allmods = {sc.module_of(p) for p, v in tree.items() if v is None or p.endswith(".py")}
+        inside = [t for t in inside if parent + "." + t not in allmods]
         if not files or len(inside) < 2:
             continue
         ta, tb = dict(tree), dict(tree)
